@@ -114,6 +114,44 @@ func c03type(rep *vh.Report, r *vh.RNG, mi *msgInfo, deep bool) {
 		}
 	})
 
+	// all fields set at once (neighbouring fields non-zero): generated values, both directions
+	for k := 0; k < 6; k++ {
+		for _, v2 := range []bool{false, true} {
+			val := reflect.New(mi.Type)
+			mode := vh.ModeCanon
+			if k%2 == 1 {
+				mode = vh.ModeMixed
+			}
+			vh.FillMessage(r, l, val, mode)
+			if k == 0 {
+				// every string completely filled, every numeric byte non-zero
+				val.Elem().Set(full.Elem())
+			}
+			rep.Eval(1)
+			wit := func() interface{} {
+				return map[string]interface{}{"msg": mi.Name, "v2": v2, "value": fmt.Sprintf("%+v", val.Elem().Interface())}
+			}
+			guard(rep, fmt.Sprintf("msg=%s what=panic", mi.Name), wit, func() {
+				want := l.Encode(val, v2)
+				got := mi.RW.Write(val.Interface().(message.Message), v2)
+				if !bytes.Equal(got.Payload, want) {
+					rep.Violation(fmt.Sprintf("msg=%s what=field:*:enc", mi.Name), "encoded payload of a fully populated value differs from the spec layout",
+						map[string]interface{}{"case": wit(), "want": vh.Hex(want), "got": vh.Hex(got.Payload)})
+					return
+				}
+				dec, err := mi.RW.Read(&message.MessageRaw{ID: mi.Msg.GetID(), Payload: append([]byte(nil), want...)}, v2)
+				exp, _ := l.Decode(want, v2)
+				if err != nil || reflect.TypeOf(dec) != exp.Type() {
+					rep.Violation(fmt.Sprintf("msg=%s what=field:*:dec", mi.Name), fmt.Sprintf("decoder failed on a spec-conformant payload: %v", err), wit())
+					return
+				}
+				if eq, diff := l.BitEqual(reflect.ValueOf(dec), exp); !eq {
+					rep.Violation(fmt.Sprintf("msg=%s what=field:%s:dec", mi.Name, diff), "decoding a fully populated payload reads field "+diff+" from the wrong bytes",
+						map[string]interface{}{"case": wit(), "payload": vh.Hex(want), "got": fmt.Sprintf("%+v", dec)})
+				}
+			})
+		}
+	}
 	// per-field probing
 	for fi := range l.Fields {
 		f := &l.Fields[fi]
